@@ -83,6 +83,7 @@ func (x *Explorer) fresh() *inst {
 		}
 		x.keysFor = x.C
 	}
+	x.W.KMSPath = x.C.KMSPath
 	var n *Node
 	if x.C.PrivateDB {
 		n = x.W.NewNodePrivateDB(x.C.OwnKey, 50)
@@ -152,6 +153,9 @@ func (x *Explorer) step(in *inst, e Event, hist []Event, check bool) {
 		} else {
 			// a panic is a C13 matter; other oracles cannot judge this step
 			x.R.Add("panics_seen_not_judged_here", 1)
+		}
+		if x.Oracles["C02"] && exp.MsgSigned && len(out.Obs) == 0 {
+			x.viol("C02", "C02 local observation was not signed: the handler panicked before broadcasting it", fmt.Sprint(out.Panic), hist)
 		}
 		return
 	}
